@@ -169,7 +169,9 @@ unsafe impl core::alloc::GlobalAlloc for NativeGhost {
         p
     }
     unsafe fn dealloc(&self, ptr: *mut u8, layout: Layout) {
-        if G_TRACK {
+        // only blocks recorded while tracking are of interest: the playback runtime itself frees
+        // buffers (the concrete-value vectors) that were allocated before tracking started
+        if G_TRACK && g_known(ptr as usize) {
             g_record_dealloc(ptr, layout);
         }
         std::alloc::System.dealloc(ptr, layout)
@@ -230,6 +232,17 @@ pub fn g_deallocs() -> usize {
 }
 pub fn g_ok() -> bool {
     unsafe { G_OK }
+}
+/// recorded at some point (live or not)
+pub fn g_known(p: usize) -> bool {
+    unsafe {
+        macro_rules! slot {
+            ($i:expr) => {
+                ($i < G_N && G_PTR[$i] == p)
+            };
+        }
+        slot!(0) || slot!(1) || slot!(2) || slot!(3) || slot!(4) || slot!(5)
+    }
 }
 pub fn g_live(p: usize) -> bool {
     unsafe {
